@@ -13,6 +13,7 @@ import argparse, collections, hashlib, importlib, json, os, shutil, subprocess, 
 HERE = os.path.dirname(os.path.dirname(os.path.abspath(__file__)))     # the /verif checkout
 REPO = os.environ.get('VERIF_REPO', '/repo')
 DEPS = os.path.join(HERE, '.deps')
+OUT = os.environ.get('VERIF_OUT') or HERE            # evidence/ and replays/ go here (tools/seedtest.py redirects them)
 PY = '/venv/bin/python'
 GUARD = 'BDCHT_CRYSP_VERIF'
 
@@ -180,7 +181,7 @@ def finish(pid, a, mod, results, inconclusive, t0, env):
         lines.append('NOTE: property=%s open known finding [%s] was not observed in this run' % (pid, key))
     # -- witnesses: write replay files, replay the first of each key in a fresh process ------
     violations = []
-    rdir = os.path.join(HERE, 'replays', pid)
+    rdir = os.path.join(OUT, 'replays', pid)
     if unknown:
         os.makedirs(rdir, exist_ok=True)
     for n, (key, ws) in enumerate(unknown.items()):
@@ -236,8 +237,8 @@ def finish(pid, a, mod, results, inconclusive, t0, env):
         ev['coverage']['programs'] = notes['programs']
     if inconclusive:
         ev['coverage']['inconclusive'] = inconclusive
-    os.makedirs(os.path.join(HERE, 'evidence'), exist_ok=True)
-    evp = os.path.join(HERE, 'evidence', pid + '.json')
+    os.makedirs(os.path.join(OUT, 'evidence'), exist_ok=True)
+    evp = os.path.join(OUT, 'evidence', pid + '.json')
     if ev['coverage']['evaluations'] >= 1 and len(classes) >= 2:
         json.dump(ev, open(evp, 'w'), indent=1, sort_keys=False)
     else:
